@@ -67,6 +67,9 @@ type batchScn struct {
 	unwrap        bool       // hand flyt the *BatchNode inside the builder instead of the builder
 	nByRun        []int      // item count of each run (repeated runs of one node object); default n
 	budgetByRun   []int      // retry budget of each run (set with the builder method before the run)
+	cByRun        []int      // batch concurrency of each run (builder method before the run)
+	cDetour       bool       // before every later run the concurrency is first set to another value, then to the run's
+	stopByRun     []bool     // stop-on-error mode of each run (builder method before the run)
 	cancelFromRun int        // the cancel spec applies to runs with at least this index (earlier runs are not cancelled)
 	feedback      bool       // repeated runs: the result slice post received becomes, AS IT IS, the items of the next run
 	cancel        cancelSpec // cancellation injection
@@ -203,10 +206,12 @@ func okVal(i int) any { return 1000 + i } // tag(item)
 // brHolder: the node object and its callbacks outlive a single run; the callbacks
 // report to whichever run is current.
 type brHolder struct {
-	prevResults []flyt.Result // feedback mode: what post received in the previous run
-	cur         *BR
-	nb          *flyt.BatchNodeBuilder
-	store       *flyt.SharedStore
+	lastStop          bool // what the previous run was configured with (see BR.run)
+	lastC, lastBudget int
+	prevResults       []flyt.Result // feedback mode: what post received in the previous run
+	cur               *BR
+	nb                *flyt.BatchNodeBuilder
+	store             *flyt.SharedStore
 }
 
 func (sc *batchScn) scenario() Scenario {
@@ -240,6 +245,12 @@ func (sc *batchScn) scenario() Scenario {
 			h.cur = b
 			if r > 0 && sc.reconf != nil {
 				stop, c = sc.reconf(h.nb, r)
+			}
+			if r < len(sc.cByRun) {
+				c = sc.cByRun[r]
+			}
+			if r < len(sc.stopByRun) {
+				stop = sc.stopByRun[r]
 			}
 			b.stop, b.c = stop, c
 			b.run()
@@ -310,9 +321,23 @@ func (b *BR) run() {
 		b.h.nb, b.h.store = b.buildNode()
 	}
 	nb, store := b.h.nb, b.h.store
-	if len(sc.budgetByRun) > 0 {
-		nb.WithMaxRetries(sc.budget) // re-configured (through the builder method) before every run
+	// re-configuration (through the builder methods) before the run — only what differs from the
+	// previous run is set again: mode first, then the concurrency (optionally by way of another
+	// value), then the budget
+	hd := b.h
+	if len(sc.stopByRun) > 0 && (b.runIdx == 0 || hd.lastStop != b.stop) {
+		nb.WithBatchErrorHandling(!b.stop)
 	}
+	if len(sc.cByRun) > 0 && (b.runIdx == 0 || hd.lastC != b.c || sc.cDetour) {
+		if sc.cDetour && b.runIdx > 0 {
+			nb.WithBatchConcurrency(b.c + 1)
+		}
+		nb.WithBatchConcurrency(b.c)
+	}
+	if len(sc.budgetByRun) > 0 && (b.runIdx == 0 || hd.lastBudget != sc.budget) {
+		nb.WithMaxRetries(sc.budget)
+	}
+	hd.lastStop, hd.lastC, hd.lastBudget = b.stop, b.c, sc.budget
 	b.execute(ctx, nb, store)
 }
 
@@ -490,8 +515,10 @@ func (b *BR) execute(ctx context.Context, nb *flyt.BatchNodeBuilder, store *flyt
 	b.runOver.Set(true)
 	core.Logf("Run returned (%q, %v)", b.action, b.err)
 	live := core.WaitQuiescent()
-	if len(live) > 0 {
-		core.Problem("batch run left %d goroutine(s) behind: %s", len(live), strings.Join(live, ", "))
+	if n := b.inflight.Get(); len(live) > 0 && n > 0 {
+		// goroutines that merely sit idle after the run (a pool kept for the next run, say) are not
+		// the business of the batch properties; an item execution that never comes back is
+		core.Problem("batch run returned while %d item execution(s) are still in flight and never finish (%s)", n, strings.Join(live, ", "))
 	}
 	b.finalChecks()
 }
